@@ -583,5 +583,5 @@ package iavl
 //@   requires tree != nil && tree.ndb != nil && tree.ndb.db != nil && tree.ImmutableTree != nil
 //@   requires tree.ndb.legacyLatestVersion == 0 - 1 && tree.ndb.firstVersion > 0 && tree.ndb.latestVersion > 0 && version >= 0
 //@   ensures [committed] err == nil ==> isProofFor(proof, dbtree(version), ord(key))
-//@   ensures [range] !(tree.ndb.firstVersion <= version && version <= tree.ndb.latestVersion) ==> err != nil
+//@   ensures [range] !(old(tree.ndb.firstVersion) <= version && version <= old(tree.ndb.latestVersion)) ==> err != nil
 //@   modifies *
